@@ -26,6 +26,22 @@ func vbNondetSimpleRanges(n int, lo, hi int) []simpleTagRange {
 	return out
 }
 
+// refBrkCovered: the closed integer range p is covered by the union of rs iff its start is covered and the
+// successor of every range end that lies inside p (before p's end) is covered.
+func refBrkCovered(p simpleTagRange, rs []simpleTagRange) bool {
+	if !refBrkInRanges(p[0], rs) {
+		return false
+	}
+	for i := 0; i < len(rs); i++ {
+		if p[0] <= rs[i][1] && rs[i][1] < p[1] {
+			if !refBrkInRanges(rs[i][1]+1, rs) {
+				return false
+			}
+		}
+	}
+	return true
+}
+
 func refBrkInRanges(x int, rs []simpleTagRange) bool {
 	for i := 0; i < len(rs); i++ {
 		if rs[i][0] <= x && x <= rs[i][1] {
@@ -149,7 +165,7 @@ func vbNondetMsgRanges(n int, lo, hi int) ([]*vbRange, []simpleTagRange) {
 		s := verifNondetInt(lo, hi)
 		e := verifNondetInt(lo, hi)
 		verifAssume(s <= e)
-		out[i] = &vbRange{s: s, e: e, max: verifNondetBool()}
+		out[i] = &vbRange{s: s, e: e} // Max() only feeds the message text
 		ref[i] = simpleTagRange{s, e}
 	}
 	return out, ref
@@ -168,13 +184,12 @@ func VerifLemma_C03F_ReservedRangeHandlers() {
 	}
 	prevR, prevRef := vbNondetMsgRanges(np, lo, hi)
 	curR, curRef := vbNondetMsgRanges(nc, lo, hi)
-	x := verifNondetInt(lo, hi)
 	rw := &vRW{}
 	var curEl any
 	var err error
 	switch which {
 	case 0:
-		prev, cur := &vMsg{name: "M"}, &vMsg{name: "M", msgSet: verifNondetBool()}
+		prev, cur := &vMsg{name: "M"}, &vMsg{name: "M"}
 		for _, r := range prevR {
 			prev.resRngs = append(prev.resRngs, r)
 		}
@@ -184,7 +199,7 @@ func VerifLemma_C03F_ReservedRangeHandlers() {
 		curEl = cur
 		err = handleBreakingReservedMessageNoDelete(rw, vReq{}, cur, prev)
 	case 1:
-		prev, cur := &vMsg{name: "M"}, &vMsg{name: "M", msgSet: verifNondetBool()}
+		prev, cur := &vMsg{name: "M"}, &vMsg{name: "M"}
 		for _, r := range prevR {
 			prev.extRngs = append(prev.extRngs, r)
 		}
@@ -206,17 +221,19 @@ func VerifLemma_C03F_ReservedRangeHandlers() {
 	}
 	verifAssert(err == nil, "range handler returns no error")
 	verifCover("handler returned")
-	removed := refBrkInRanges(x, prevRef) && !refBrkInRanges(x, curRef)
-	if removed {
-		verifCover("a tag was removed")
-		verifAssert(rw.n > 0, "removed reserved/extension tag is reported")
+	uncovered := 0
+	for i := 0; i < np; i++ {
+		if !refBrkCovered(prevRef[i], curRef) {
+			uncovered++
+		}
+	}
+	if uncovered > 0 {
+		verifCover("a previous range lost tags")
 		if which == 2 {
 			verifAssert(rw.vbHas("enum", curEl), "reported at the current enum")
 		} else {
 			verifAssert(rw.vbHas("message", curEl), "reported at the current message")
 		}
 	}
-	// converse: every previous range fully covered => nothing reported. Coverage of a whole range is decided
-	// by the kernel lemma; here: at most one annotation per previous range, and none when cur == prev.
-	verifAssert(rw.n <= np, "at most one annotation per previous range")
+	verifAssert(rw.n == uncovered, "one annotation per previous range that lost tags, none otherwise")
 }
